@@ -403,12 +403,29 @@ func (p *Prog) findMapRanges() map[string]*ast.RangeStmt {
 
 // FrameObligations generates the analysis obligations of a property.
 func (p *Prog) FrameObligations(prop string) []*Obligation {
+	obls := p.frameObligations0(prop)
+	switch prop {
+	case "C01", "C02", "C03", "C12", "C14":
+		// these properties state what a report is as a function of the profile and the data of the same call: they presuppose
+		// that no call leaves package-level state behind for the next (or a concurrent) one - the history-independence frame of C09
+		for _, ob := range p.frameObligations0("C09") {
+			if strings.HasSuffix(ob.Name, "#no-package-state") {
+				c := *ob
+				c.Tags = []string{prop}
+				obls = append(obls, &c)
+			}
+		}
+	}
+	return obls
+}
+
+func (p *Prog) frameObligations0(prop string) []*Obligation {
 	var obls []*Obligation
 	switch prop {
 	case "C08":
 		return p.c08Obligations()
 	case "C13":
-		return append(p.c13Obligations(), p.escRewriteObligations([]string{"C13"})...)
+		return append(append(p.c13Obligations(), p.escRewriteObligations([]string{"C13"})...), p.escFormatObligations([]string{"C13"})...)
 	case "C02":
 		return p.ownObligations(map[string]bool{"generator": true, "path": true}, "C02")
 	case "C01":
